@@ -32,6 +32,7 @@ pub fn profile() -> Profile {
     p.use_all_resources = true;
     p.unused_structs = (0, 0);
     p.keyword_names = 2;
+    p.many_funcs = 2;
     p
 }
 
